@@ -428,31 +428,38 @@ type shape struct {
 	scripts string
 	att     int
 	budget  int
+	atomic  bool
 }
 
+// configs lists what each tier explores (every shape once per transport).
 func configs(thorough bool) []Cfg {
 	shapes := []shape{
-		{"rmw|-", 2, 0}, {"rmw|-", 2, 1},
-		{"rmw|rmw", 2, 0}, {"rmw|rmw", 2, 1},
-		{"blind|rmw", 2, 0}, {"blind|rmw", 2, 1},
-		{"rmw+rmw|rmw", 2, 0},
+		{"rmw|-", 2, 0, false}, {"rmw|-", 2, 1, false},
+		{"rmw|rmw", 2, 0, false}, {"rmw|rmw", 2, 1, false},
+		{"blind|rmw", 2, 0, false}, {"blind|rmw", 2, 1, false},
+		{"rmw+rmw|rmw", 2, 0, false},
+		{"rmw|-|-", 1, 1, false},
+		{"rmw|rmw|-", 2, 0, true},
 	}
 	if thorough {
 		shapes = append(shapes,
-			shape{"rmw+rmw|rmw", 2, 1},
-			shape{"rmw+blind|rmw+rmw", 2, 0},
-			shape{"rmw|rmw", 3, 2},
-			shape{"rmw|-|-", 2, 1},
-			shape{"rmw|rmw|-", 2, 0}, shape{"rmw|rmw|-", 2, 1},
-			shape{"rmw|rmw|rmw", 2, 0}, shape{"rmw|blind|rmw", 2, 1},
-			shape{"rmw|rmw|-|-", 2, 0}, shape{"rmw|rmw|-|-", 2, 1},
-			shape{"rmw|rmw|rmw|-", 2, 0},
+			shape{"rmw+rmw|rmw", 2, 1, false},
+			shape{"rmw+blind|rmw+rmw", 2, 0, false},
+			shape{"rmw|rmw", 3, 2, false},
+			shape{"rmw|-|-", 2, 1, false},
+			shape{"rmw|rmw|-", 2, 0, false},
+			shape{"rmw|rmw|-", 2, 1, true},
+			shape{"rmw|rmw|rmw", 2, 0, true},
+			shape{"rmw|blind|rmw", 2, 1, true},
+			shape{"rmw|rmw|-|-", 2, 0, true},
+			shape{"rmw|rmw|-|-", 2, 1, true},
+			shape{"rmw|rmw|rmw|-", 2, 0, true},
 		)
 	}
 	var out []Cfg
 	for _, sh := range shapes {
 		for _, tr := range []string{"local", "direct", "gob"} {
-			out = append(out, Cfg{Transport: tr, Scripts: scripts(sh.scripts), MaxAttempts: sh.att, Budget: sh.budget, Faults: faultsFor(tr, sh.budget), MaxSteps: 400})
+			out = append(out, Cfg{Transport: tr, Scripts: scripts(sh.scripts), MaxAttempts: sh.att, Budget: sh.budget, Faults: faultsFor(tr, sh.budget), MaxSteps: 400, Atomic: sh.atomic})
 		}
 	}
 	return out
@@ -464,6 +471,9 @@ func weight(c *Cfg) int {
 		secs += len(s)
 	}
 	w := len(c.Scripts)*100 + secs*10 + c.Budget*200 + c.MaxAttempts
+	if c.Atomic {
+		w -= 150
+	}
 	if c.Transport == "gob" {
 		w += 50
 	}
@@ -535,6 +545,11 @@ func TestCheck(t *testing.T) {
 			par = 1
 		}
 		start := time.Now()
+		// a single configuration never takes more than its share of the tier's budget
+		jobCap := 150 * time.Second
+		if env.Thorough() {
+			jobCap = 25 * time.Minute
+		}
 		var wg sync.WaitGroup
 		next := make(chan int)
 		for w := 0; w < par; w++ {
@@ -542,7 +557,11 @@ func TestCheck(t *testing.T) {
 			go func() {
 				defer wg.Done()
 				for i := range next {
-					outs[i] = spawn(dir, job{Cfg: cfgs[i], Mode: "explore", DeadlineNs: env.Deadline.UnixNano(), Workers: 1})
+					dl := time.Now().Add(jobCap)
+					if env.Deadline.Before(dl) {
+						dl = env.Deadline
+					}
+					outs[i] = spawn(dir, job{Cfg: cfgs[i], Mode: "explore", DeadlineNs: dl.UnixNano(), Workers: 1})
 				}
 			}()
 		}
